@@ -999,6 +999,21 @@ func Generate(r *rand.Rand, tk *fw.Tokens, opt Options) *Doc {
 		kids = []*node{w}
 		g.feat("skeleton:single-wrapper")
 	}
+	if len(kids) > 1 && g.chance(0.12) {
+		// the only div/main of the body carries a class or id from the layout vocabulary
+		// ("has-sidebar", "menu-open" ...) and holds the whole page; beside it, at the top
+		// level, a bare list of links
+		w := el(g.pick([]string{"div", "main"}))
+		g.nameIt(w, 1)
+		w.kids = kids
+		lst := g.list("", 0, 1, true)
+		if g.chance(0.5) {
+			kids = []*node{lst, w}
+		} else {
+			kids = []*node{w, lst}
+		}
+		g.feat("skeleton:sole-named-div-beside-link-list")
+	}
 	body.kids = kids
 	if g.chance(0.03) {
 		g.nameIt(body, 0.8)
